@@ -55,16 +55,21 @@ CONSTANTS Family,        \* "bsc" | "heco" | "pixie" | "clique" | "bor"
           MaxStored,     \* bound: stored non-genesis headers
           MaxLen,        \* bound: path length
           EmitOn,        \* print edges (generation run)
+          TwoBranch,     \* TRUE: fork-choice scenarios only (see Candidates)
           TraceLen       \* length of the behaviours printed by a simulation run (SimSpec)
 
 VARIABLES stored,   \* set of stored paths (always contains <<>>)
           eph,      \* stored non-genesis path -> path of its EpochParentHash target
           canon,    \* height -> set of paths (empty or singleton): the MAIN_CHAIN assignments
           cheight,  \* CURRENT_HEADER_HEIGHT
+          ever,     \* history variable: the headers that have been canonical head at some time
           hist      \* history of submissions (hidden by VIEW)
 
-vars == <<stored, eph, canon, cheight, hist>>
-View == <<stored, eph, canon, cheight>>
+vars == <<stored, eph, canon, cheight, ever, hist>>
+\* P-EDGE explores one history per VIEW value.  What the implementation may keep from a path beyond the model's state is
+\* old canonical assignments, so the fork-choice scenarios (TwoBranch) distinguish states by the heads they went through:
+\* "B took over from the longer A" and "A never was head" are different source states there.
+View == <<stored, eph, canon, cheight, IF TwoBranch THEN ever ELSE {}>>
 
 Heights == G0..(G0 + MaxLen + 1)
 GenesisDiff == 2
@@ -248,6 +253,7 @@ Init == /\ stored = {<<>>}
         /\ eph = [q \in {} |-> <<>>]
         /\ canon = [k \in Heights |-> IF k = G0 THEN {<<>>} ELSE {}]
         /\ cheight = G0
+        /\ ever = {<<>>}
         /\ hist = <<>>
 
 CurHead == CHOOSE hd \in canon[cheight] : TRUE
@@ -283,6 +289,7 @@ Submit(x) ==
     LET out == Outcome(x)
         q   == Append(x.p, [s |-> x.s, d |-> x.d, a |-> x.a])
     IN /\ IF out = "store" THEN AddHeader(q) ELSE UNCHANGED <<stored, eph, canon, cheight>>
+       /\ ever' = ever \cup canon'[cheight']
        /\ LET step == [x |-> x, out |-> out, mon |-> MonOf(x.p, x.s, x.d, x.a, x.f),
                        ch |-> cheight', canon |-> CanonSeq(canon', cheight'),
                        above |-> {k \in Heights : k > cheight' /\ canon'[k] # {}}]
@@ -309,10 +316,31 @@ ModelEquiv == \A p \in stored : \A s \in Keys : \A d \in Diffs : \A a \in AnnCho
 OrphanParent == <<[s |-> GenesisSigner, d |-> 1, a |-> 0]>>       \* never stored (genesis signer is recent)
 Parents == {p \in stored : Len(p) < MaxLen} \cup {OrphanParent}
 
-Candidates ==
+AllCandidates ==
     {[p |-> p, s |-> s, d |-> d, a |-> a, f |-> "ok"] : p \in Parents, s \in Keys, d \in Diffs, a \in AnnChoices}
     \cup {x \in [p : stored, s : Keys, d : Diffs, a : {0}, f : Defects] :
              Len(x.p) < MaxLen /\ ImplOK(x.p, x.s, x.d, 0)}
+
+(***************************************************************************)
+(* TwoBranch: deep fork-choice scenarios at small cost.  Only submissions   *)
+(* that get stored; the stored headers form at most two branches that fork *)
+(* at the genesis header, and a branch keeps the difficulty it started     *)
+(* with (a branch of in-turn / high-difficulty headers against a branch of *)
+(* out-of-turn ones).  This reaches: a longer light fork, a shorter heavier*)
+(* fork taking over (assignments above the new head must go), the longer   *)
+(* fork overtaking again (the walk-back must rewrite down to the common    *)
+(* ancestor) - with every interleaving of the two branches.                *)
+(***************************************************************************)
+IsLeaf(p) == p \in stored /\ \A q \in stored : q = <<>> \/ Parent(q) # p
+Discipline(x) ==
+    IF x.p = <<>> THEN Cardinality({q \in stored : Len(q) = 1}) < 2
+    ELSE IsLeaf(x.p) /\ x.d = Last(x.p).d
+Candidates ==
+    IF TwoBranch
+    THEN {x \in {[p |-> p, s |-> s, d |-> d, a |-> a, f |-> "ok"] : p \in stored, s \in Keys, d \in Diffs, a \in AnnChoices} :
+             Len(x.p) < MaxLen /\ Discipline(x) /\ Append(x.p, [s |-> x.s, d |-> x.d, a |-> x.a]) \notin stored
+             /\ ImplOK(x.p, x.s, x.d, x.a)}
+    ELSE AllCandidates
 
 NStored == Cardinality(stored) - 1
 \* with MaxStored non-genesis headers stored, the non-storing edges are still explored (and printed)
@@ -340,6 +368,7 @@ SimDone == /\ Len(hist) = TraceLen
            /\ eph' = [q \in {} |-> <<>>]
            /\ canon' = [k \in Heights |-> IF k = G0 THEN {<<>>} ELSE {}]
            /\ cheight' = G0
+           /\ ever' = {<<>>}
            /\ hist' = <<>>
 SimSpec == Init /\ [][SimStep \/ SimDone]_vars
 =============================================================================
